@@ -102,6 +102,10 @@ def names_of(t):
     return out
 
 
+def names_of_env(env):
+    return {k for k, _ in env["feats"]} | {"x", "y", "z", "t", "idx", "timestamp"}
+
+
 def subtrees(t):
     for c in t[1:]:
         if isinstance(c, list):
@@ -750,7 +754,7 @@ class P(Prop):
             "magnitude anywhere between 5e-324 and 1.8e308 (subnormals, below machine epsilon, beyond 2**53, near overflow); 'wide' = independent "
             "values over the whole double range with +-0.0, +-inf, NaN; optional spaces and ** for ^; entry points Track.operate(expr), Track.op(expr), "
             "Track[expr] (also for strings that Track.__getitem__ takes for a feature name), Track.operate(expr, {name: value}) with numbers given by "
-            "name (sometimes shadowing a feature); sequences: one or two earlier statements run on the same track, the judged one may read what they wrote. "
+            "name (an external named like a feature is compared with the model only, not judged); sequences: one or two earlier statements run on the same track, the judged one may read what they wrote. "
             "The oracle evaluates the documented definitions with IEEE doubles and a running bound on the rounding error, and judges with a relative "
             "tolerance (1e-9 of the value + 8 bounds) at every magnitude. Cases on which ordinary arithmetic gives no value and Python raises "
             "(negative base with fractional exponent, 0 to a negative power, overflow of ** or EXP, sqrt of a negative, COS of inf) are not generated "
@@ -1397,6 +1401,8 @@ class P(Prop):
         return None
 
     def spec(self, case, out):
+        if case.get("ext") and any(k in names_of_env(case["env"]) for k, _ in case["ext"]):
+            return None      # an external named like a feature: which one wins is not stated anywhere (tie only: the model mirrors the code)
         msg = self.judge(case, out)
         if msg and case.get("kind") in ("expr", "op"):
             cls = self.classify(case, out, msg)
